@@ -77,6 +77,33 @@ def run(ctx):
         o = rc.impl_read(bytes(ba)); rcases.append((bytes(ba), o)); meta.append((label, "magic"))
         if o[0] == "ok":
             prop_bad.append({"batch": label, "what": f"magic byte {ba[16]} accepted", "bytes": bytes(ba).hex()[:200]})
+        # compound damage: a corrupted checksummed byte TOGETHER WITH an input that ends before the declared batch length
+        # (declared length inflated, or bytes cut off), and a patched record count together with a cut
+        if len(data) > 70 and len(data) < 3000:
+            for _ in range(2 if quick else 6):
+                ba = bytearray(data)
+                bit = r.randrange(nbits)
+                ba[17 + bit // 8] ^= 1 << (bit % 8)
+                how = r.choice(["length+1", "length+7", "cut1", "cut3"])
+                if how.startswith("length"):
+                    bl = int.from_bytes(ba[8:12], "big", signed=True) + int(how[7:])
+                    ba[8:12] = bl.to_bytes(4, "big", signed=True)
+                else:
+                    ba = ba[: len(ba) - int(how[3:])]
+                o = rc.impl_read(bytes(ba))
+                rcases.append((bytes(ba), o)); meta.append((label, f"flip@{17 + bit // 8}.{bit % 8}+{how}"))
+                if o[0] == "ok":
+                    prop_bad.append({"batch": label, "what": f"bit flip at byte {17 + bit // 8} together with {how} accepted", "bytes": bytes(ba).hex()[:600]})
+            cnt = int.from_bytes(data[57:61], "big", signed=True)
+            if cnt >= 2:
+                for cut in (1, 2, r.randrange(1, 40)):
+                    ba = bytearray(data[: len(data) - cut])
+                    ba[57:61] = (cnt - 1).to_bytes(4, "big", signed=True)
+                    o = rc.impl_read(bytes(ba))
+                    rcases.append((bytes(ba), o)); meta.append((label, f"count-1+cut{cut}"))
+                    if o[0] == "ok":
+                        prop_bad.append({"batch": label, "what": f"record count patched to {cnt - 1} together with {cut} bytes cut off accepted",
+                                         "bytes": bytes(ba).hex()[:600]})
         cuts = range(len(data)) if (len(data) <= 100 and (not quick or label.startswith('broker'))) else sorted({r.randrange(len(data)) for _ in range((12 if len(data) < 1500 else 4) if quick else (40 if len(data) < 1500 else 8))} | set(range(len(data) - 6, len(data))))
         for k in cuts:
             o = rc.impl_read(data[:k])
